@@ -118,3 +118,45 @@ func zzSignal(pBound, g, firstKind, nKinds int) {
 		nd.Reach("C12/doneparent-end")
 	}
 }
+
+// ZZVerifC12Accessors: the list handed out by Errors() is the caller's own:
+// after N appended errors (N symbolic, so that every capacity situation of
+// the internal slice occurs) the caller overwrites an element of the list and
+// extends it, the scope gets one more error - the scope still reports exactly
+// its own errors in order, and the caller's extended list is not rewritten.
+func ZZVerifC12Accessors() {
+	var s app.ContextScope
+	if nd.Bool("isolated") {
+		s = NewIsolated(New())
+	} else {
+		s = New()
+	}
+	n := 1 + nd.Choose("n", nd.Param("AN", 4))
+	errs := make([]error, n+1)
+	for i := range errs {
+		errs[i] = errors.New("e")
+	}
+	if nd.Bool("first-by-kill") {
+		s.Kill()
+		errs[0] = context.Canceled
+	} else {
+		s.AppendError(errs[0])
+	}
+	for i := 1; i < n; i++ {
+		s.AppendError(errs[i])
+	}
+	got := s.Errors()
+	nd.Assert(len(got) == n, "C12/accessor-count")
+	mine := errors.New("caller's own")
+	ext := append(got, mine)
+	got[0] = nil
+	s.AppendError(errs[n])
+	now := s.Errors()
+	nd.Assert(len(now) == n+1, "C12/accessor-count-after-append")
+	for i := 0; i <= n && i < len(now); i++ {
+		nd.Assert(now[i] == errs[i], "C12/accessor-list-is-a-snapshot")
+	}
+	nd.Assert(len(ext) == n+1 && ext[n] == mine, "C12/accessor-callers-list-rewritten")
+	nd.Assert(s.Err() != nil, "C12/err-iff-errors")
+	nd.Reach("C12/accessors-end")
+}
